@@ -12,7 +12,7 @@ META = {
              'compared with the independent reference encoder (byte equality) and decoder (round trip, exact length); '
              'values the code cannot represent must raise; signature = (code, value class); non-trivial when the value '
              'is a boundary value of its domain or belongs to a rejection class'),
-    'required_obs': {'quick': ['code-' + c for c in CODES] + ['uvari-width-1', 'uvari-width-2', 'uvari-width-4',
+    'required_obs': {'quick': ['code-' + c for c in CODES] + ['frame-numbers-of-4-bytes', 'uvari-width-1', 'uvari-width-2', 'uvari-width-4',
                                'rejected-out-of-range', 'rejected-non-ascii', 'rejected-too-long', 'cache-collision-pair',
                                'e2e-contract-evals', 'obname-copy>0', 'obname-origin-2byte', 'obname-after-identity-change', 'dtime-utc-year-differs', 'numpy-scalar-zero-pair', 'list-with-unrepresentable-element',
                                'list-round-trip', 'dtime-fold-pair', 'dtime-naive-after-zone-change', 'dtime-through-attributes', 'dtime-attr-objects-compared', 'uvari-numpy-integer']},
@@ -58,6 +58,10 @@ def cases(tier, seed):
     # aware / naive, the second occurrence of a repeated wall-clock time, under several local zones of the process
     for k in range(24 if tier == 'quick' else 500):
         yield {'stratum': 'dtime-through-attributes', 'index': k, 'kind': 'dtime-attr'}
+    # UVARI frame numbers of real frame-data records across the one / two / four byte thresholds (128, 16384): frames of
+    # 130 and of more than 16384 rows, every record decoded by the strict reader with the file's own channel descriptors
+    for k, n in enumerate([130, 16390] if tier == 'quick' else [127, 128, 129, 16383, 16384, 16385, 16500, 40000]):
+        yield {'stratum': 'frame-numbers-across-thresholds', 'index': k, 'kind': 'frame-numbers', 'rows': n}
 
 
 def run_case(case):
@@ -491,6 +495,32 @@ def run_case(case):
             bump('list-round-trip')
         else:
             bump('representable-rejected:list:%s' % (run.wout[1] if run.data is None else run.built.outcomes[-1][1]))
+    elif case['kind'] == 'frame-numbers':
+        from vf import oracle
+        r = gen.rng(seed, PROP, case['stratum'], case['index'])
+        n = case['rows']
+        sp = gen.base_spec(r.choice([64, 8192]))
+        sp['ops'].append(gen.origin_op())
+        sp['ops'].append(gen.channel_op('B', '<u1', (n,), fill={'kind': 'pos', 'tag': 5}))
+        if r.random() < 0.5:
+            sp['ops'].append(gen.channel_op('W', '>u2', (n,), fill={'kind': 'pos', 'tag': 6}))
+        sp['ops'].append(gen.frame_op('FR', [i for i, o in enumerate(sp['ops']) if o['op'] == 'channel']))
+        sp['write'] = {'source': r.choice(['inline', 'dict', 'struct']), 'output_chunk_size': 2 ** 20,
+                       'input_chunk_size': r.choice([None, 1000, 16384])}
+        run = harness.execute(sp, want_taps=False)
+        evals[0] += n
+        bump('frame-number-records', n)
+        if n > 16384:
+            bump('frame-numbers-of-4-bytes')
+        if run.data is None:
+            vio.append({'prop': PROP, 'kind': 'encoding-mismatch', 'mech': 'frame-numbers:write-failed', 'detail': str(run.wout)[:300]})
+        else:
+            oracle.check_frames(run)
+            for v in run.violations:
+                vio.append({'prop': PROP, 'kind': 'encoding-mismatch', 'mech': 'frame-numbers:' + v.mech, 'detail': v.detail})
+            if run.stage_error is not None:
+                vio.append({'prop': PROP, 'kind': 'encoding-mismatch', 'mech': 'frame-numbers:undecodable', 'detail': str(run.stage_error[1])[:300]})
+        sigs.add(f'frame-numbers:{n}')
     else:   # e2e: the round-trip contracts observe every encoder call of a real write
         contracts.attach_codec()
         contracts.drain()
